@@ -36,7 +36,7 @@ class Struct:
 
 def fold(node, env=None, ctors=()):
     """env: name -> python value (or dotted 'Class.NAME' -> value). ctors: constructor names folded to Struct."""
-    env = env or {}
+    env = env if env is not None else {}
 
     def f(n):
         if isinstance(n, ast.Constant):
@@ -52,6 +52,28 @@ def fold(node, env=None, ctors=()):
             if t in env:
                 return env[t]
             raise NotConst(t)
+        if isinstance(n, (ast.ListComp, ast.GeneratorExp, ast.SetComp)) and len(n.generators) == 1 and not n.generators[0].is_async:
+            g = n.generators[0]
+            seq = f(g.iter)
+            out = []
+            saved = dict(env)
+            try:
+                for x in list(seq):
+                    if isinstance(g.target, ast.Name):
+                        env[g.target.id] = x
+                    elif isinstance(g.target, ast.Tuple) and all(isinstance(e, ast.Name) for e in g.target.elts):
+                        for e, y in zip(g.target.elts, x):
+                            env[e.id] = y
+                    else:
+                        raise NotConst("comprehension target")
+                    if all(f(c) for c in g.ifs):
+                        out.append(f(n.elt))
+            finally:
+                for k in list(env):
+                    if k not in saved:
+                        del env[k]
+                env.update(saved)
+            return set(out) if isinstance(n, ast.SetComp) else out
         if isinstance(n, ast.BinOp) and type(n.op) in BIN:
             try:
                 return BIN[type(n.op)](f(n.left), f(n.right))
@@ -107,6 +129,22 @@ def fold(node, env=None, ctors=()):
                     r = {"len": len, "int": int, "ord": ord, "chr": chr, "list": list, "tuple": tuple, "sorted": sorted,
                          "range": range, "set": set, "dict": dict, "min": min, "max": max, "abs": abs, "sum": sum}[fn](*args)
                     return list(r) if isinstance(r, range) else r
+                except Exception as e:
+                    raise NotConst(str(e))
+            if isinstance(n.func, ast.Attribute) and n.func.attr in ("items", "keys", "values", "get", "index", "count", "copy") and not n.keywords:
+                recv = f(n.func.value)
+                if isinstance(recv, (dict, list, tuple)):
+                    try:
+                        r = getattr(recv, n.func.attr)(*[f(a) for a in n.args])
+                        return list(r) if n.func.attr in ("items", "keys", "values") else r
+                    except Exception as e:
+                        raise NotConst(str(e))
+            if fn in ("type", "isinstance", "bool", "str", "hex", "divmod", "round", "enumerate", "zip", "reversed", "any", "all") and not n.keywords:
+                args = [f(a) for a in n.args]
+                try:
+                    r = {"type": type, "isinstance": isinstance, "bool": bool, "str": str, "hex": hex, "divmod": divmod, "round": round,
+                         "enumerate": lambda *a: list(enumerate(*a)), "zip": lambda *a: list(zip(*a)), "reversed": lambda a: list(reversed(a)), "any": any, "all": all}[fn](*args)
+                    return r
                 except Exception as e:
                     raise NotConst(str(e))
             if isinstance(n.func, ast.Attribute) and n.func.attr in STR_METHODS and not n.keywords:
@@ -170,26 +208,120 @@ class Returned(Exception):
         self.value = value
 
 
-def fold_body(stmts, env, ctors=()):
-    """evaluate straight-line arithmetic code (assignments, augmented assignments, if/else on foldable tests, return)
-    over a constant environment; returns the returned value.  Raises NotConst for anything else."""
+class Raised(Exception):
+    """the folded code reached a raise statement"""
+    def __init__(self, name):
+        self.name = name
+
+
+class _Break(Exception):
+    pass
+
+
+class _Continue(Exception):
+    pass
+
+
+def fold_body(stmts, env, ctors=(), calls=None, max_steps=20000):
+    """evaluate closed helper code (assignments, augmented assignments, if/else, for over constant sequences, return, raise)
+    over a constant environment; returns the returned value, raises Raised(name) when the code raises, NotConst otherwise.
+    `calls`: optional {call text: python callable} for sibling helpers."""
     env = dict(env)
+    steps = [0]
+
+    def ffold(n):
+        if calls:
+            class R(ast.NodeTransformer):
+                def visit_Call(self, node):
+                    self.generic_visit(node)
+                    fn = ast.unparse(node.func)
+                    if fn in calls:
+                        return ast.copy_location(ast.Constant(calls[fn](*[fold(a, env, ctors) for a in node.args])), node)
+                    return node
+            if any(isinstance(x, ast.Call) and ast.unparse(x.func) in calls for x in ast.walk(n)):
+                import copy
+                n = R().visit(copy.deepcopy(n))
+        return fold(n, env, ctors)
+
+    def assign(t, v):
+        if isinstance(t, (ast.Name, ast.Attribute)):
+            env[ast.unparse(t)] = v
+        elif isinstance(t, (ast.Tuple, ast.List)):
+            vals = list(v)
+            if len(vals) != len(t.elts):
+                raise NotConst("unpack")
+            for e, x in zip(t.elts, vals):
+                assign(e, x)
+        elif isinstance(t, ast.Subscript):
+            base = ffold(t.value)
+            try:
+                base[ffold(t.slice)] = v
+            except Exception as e:
+                raise NotConst(str(e))
+        else:
+            raise NotConst("target " + type(t).__name__)
 
     def run(stmts):
         for st in stmts:
-            if isinstance(st, ast.Expr) and isinstance(st.value, ast.Constant):
-                continue
-            if isinstance(st, ast.Assign) and len(st.targets) == 1 and isinstance(st.targets[0], (ast.Name, ast.Attribute)):
-                env[ast.unparse(st.targets[0])] = fold(st.value, env, ctors)
-            elif isinstance(st, ast.AugAssign) and isinstance(st.target, (ast.Name, ast.Attribute)) and type(st.op) in BIN:
+            steps[0] += 1
+            if steps[0] > max_steps:
+                raise NotConst("step limit")
+            if isinstance(st, ast.Expr):
+                if isinstance(st.value, ast.Constant):
+                    continue
+                if isinstance(st.value, ast.Call) and isinstance(st.value.func, ast.Attribute) and st.value.func.attr in ("append", "extend", "add", "update"):
+                    recv = ffold(st.value.func.value)
+                    try:
+                        getattr(recv, st.value.func.attr)(*[ffold(a) for a in st.value.args])
+                    except Exception as e:
+                        raise NotConst(str(e))
+                    continue
+                if isinstance(st.value, ast.Call) and ast.unparse(st.value.func) in ("print", "logging.debug", "logging.info"):
+                    continue
+                raise NotConst("expression statement " + ast.unparse(st)[:40])
+            if isinstance(st, ast.Assign):
+                v = ffold(st.value)
+                for t in st.targets:
+                    assign(t, v)
+            elif isinstance(st, ast.AnnAssign) and st.value is not None:
+                assign(st.target, ffold(st.value))
+            elif isinstance(st, ast.AugAssign) and type(st.op) in BIN:
                 k = ast.unparse(st.target)
                 if k not in env:
                     raise NotConst(k)
-                env[k] = BIN[type(st.op)](env[k], fold(st.value, env, ctors))
+                try:
+                    env[k] = BIN[type(st.op)](env[k], ffold(st.value))
+                except TypeError as e:
+                    raise NotConst(str(e))
             elif isinstance(st, ast.If):
-                run(st.body if fold(st.test, env, ctors) else st.orelse)
+                run(st.body if ffold(st.test) else st.orelse)
+            elif isinstance(st, ast.For):
+                it = ffold(st.iter)
+                try:
+                    seq = list(it.items()) if False else list(it)
+                except TypeError:
+                    raise NotConst("iteration")
+                broke = False
+                for x in seq:
+                    assign(st.target, x)
+                    try:
+                        run(st.body)
+                    except _Break:
+                        broke = True
+                        break
+                    except _Continue:
+                        continue
+                if not broke:
+                    run(st.orelse)
+            elif isinstance(st, ast.Break):
+                raise _Break()
+            elif isinstance(st, ast.Continue):
+                raise _Continue()
             elif isinstance(st, ast.Return):
-                raise Returned(fold(st.value, env, ctors) if st.value is not None else None)
+                raise Returned(ffold(st.value) if st.value is not None else None)
+            elif isinstance(st, ast.Raise):
+                name = ast.unparse(st.exc.func) if isinstance(st.exc, ast.Call) else (ast.unparse(st.exc) if st.exc is not None else "reraise")
+                raise Raised(name)
             elif isinstance(st, ast.Pass):
                 continue
             else:
